@@ -237,7 +237,7 @@ func c17(c *Ctx) {
 			continue
 		}
 		outer := outermostLoopOf(fn, chk[0].Block())
-		c.R.Check(outer != nil && !outer[srt[0].Block()] && srt[0].Block().Dominates(cfgx.LoopHeader(outer)) && strings.HasSuffix(fullType(cfgx.CallArgs(srt[0])[0]), "semver.Collection"), site(srt[0])+" ascending-before-scan", c.pos(srt[0].Pos()), "versions are sorted (semver.Collection, ascending) before the scan", "the version list is not sorted ascending before the scan")
+		c.R.Check(outer != nil && !outer[srt[0].Block()] && cfgx.MustPass(srt[0].Block(), cfgx.LoopHeader(outer)) && strings.HasSuffix(fullType(cfgx.CallArgs(srt[0])[0]), "semver.Collection"), site(srt[0])+" ascending-before-scan", c.pos(srt[0].Pos()), "versions are sorted (semver.Collection, ascending) before the scan", "the version list is not sorted ascending before the scan")
 		if fn == inst && outer != nil {
 			okx, _ := cfgx.OnlyHeaderExits(outer)
 			c.R.Check(okx, load.FuncName(fn)+": scan without early exit", c.pos(chk[0].Pos()), "the scan visits every version: the last satisfying one (the highest) wins", "the install scan can stop early: a lower satisfying version would be chosen")
